@@ -6,7 +6,7 @@ reg = load_all()
 names = sys.argv[1:] or [k for k in reg if not k.startswith('loop:') and not k.startswith('builtin:') and not k.startswith('method:') and not getattr(reg[k],'assumed',False)]
 for n in names:
     t0 = time.time()
-    res = (verify_body if n.startswith('body:') else verify)(reg[n], reg)
+    res = (verify_body if n.startswith('body:') else verify)(getattr(reg[n],'concrete',reg[n]), reg)
     bad = [o for o in res.obls if o.verdict != 'unsat' and o.kind!='control']
     print(f"{n}: paths={res.paths} feasible={res.feasible_paths} outcomes={res.outcomes} obls={len(res.obls)} notok={len(bad)} {time.time()-t0:.1f}s inlined={sorted(res.inlined)}")
     seen=set()
